@@ -508,6 +508,7 @@ func (l *leader) setCommitIndex(index uint64) {
 
 func (r *Raft) setCommitIndex(index uint64) (configCommitted bool) {
 	r.commitIndex = index
+	verifCommit(r)
 	if trace {
 		println(r, "commitIndex", r.commitIndex)
 	}
